@@ -2,3 +2,4 @@
 import Dalek.Props.C01.Field51
 import Dalek.Props.C01.Field26
 import Dalek.Props.C01.Pow2k
+import Dalek.Props.C01.FieldChains
